@@ -43,17 +43,29 @@ class HTTPDriver(explore.Driver):
         from dclab import http_utils
         st = St()
         st.host = fakehttp.FakeHost(self.flavour)
-        st.host.add(URL, self.blob)
+        # one URL per configuration: a state must not depend on what was
+        # served under the same URL earlier in this process (that is the
+        # subject of _reopen_case)
+        url = URL.replace("res.bin", "res-%d-%d-%d-%s.bin" % (
+            self.L, self.cs, self.keep, self.flavour))
+        st.host.add(url, self.blob)
         st.ctx = fakehttp.installed(st.host)
         st.ctx.__enter__()
-        st.f = http_utils.HTTPFile(URL, chunk_size=self.cs,
+        st.f = http_utils.HTTPFile(url, chunk_size=self.cs,
                                    keep_chunks=self.keep)
-        st.ctx.__exit__(None, None, None)   # session object already bound
+        # the fake host stays installed for the life of the state (every
+        # request the file object ever makes goes to it, also lazy ones)
         st.pos = 0          # model position
         st.last = None      # (kind, args, got, expected)
         st.err = None
         st.tell = 0
         return st
+
+    def close(self, st):
+        try:
+            st.ctx.__exit__(None, None, None)
+        except Exception:
+            pass
 
     def ops(self, st):
         L, cs = self.L, self.cs
@@ -298,6 +310,56 @@ def _ds_case(args):
     return {"requests": len(host.log), "L": L, "cs": cs, "feats": nfeat}, out
 
 
+def _reopen_case(args):
+    """The resource behind one URL is replaced (longer, shorter, same
+    length / other bytes) and opened again with a new HTTPFile: every read
+    must show the resource as it is now."""
+    cs, keep = args
+    from dclab import http_utils
+    out = []
+    cnt = 0
+    url = "http://vf.example/reopen-%d-%d.bin" % (cs, keep)
+    gens = [blob_for(3 * cs + 5), blob_for(5 * cs + 1), blob_for(cs + 2),
+            bytes(reversed(blob_for(cs + 2))), blob_for(2 * cs)]
+    host = fakehttp.FakeHost("rfc")
+    with fakehttp.installed(host):
+        for gi, blob in enumerate(gens):
+            host.add(url, blob)
+            L = len(blob)
+            f = http_utils.HTTPFile(url, chunk_size=cs, keep_chunks=keep)
+            plan = [("end", -3, 3), ("set", 0, 4), ("set", cs - 1, 3),
+                    ("set", max(L - cs - 1, 0), -1), ("end", -L, 2),
+                    ("set", L - 1, 5)]
+            for whence, off, nread in plan:
+                cnt += 1
+                try:
+                    if whence == "end":
+                        f.seek(off, os.SEEK_END)
+                        pos = L + off
+                    else:
+                        f.seek(off)
+                        pos = off
+                    got = f.read(nread)
+                    exp = blob[pos:] if nread < 0 else blob[pos:pos + nread]
+                    tell = f.tell()
+                    ok = bytes(got) == exp and tell == pos + len(exp)
+                    detail = (f"generation {gi} (L={L}): seek({whence},"
+                              f"{off}) read({nread}) -> {bytes(got).hex()} "
+                              f"tell {tell}; expected {exp.hex()} tell "
+                              f"{pos + len(exp)}")
+                except Exception as e:
+                    ok = False
+                    detail = f"generation {gi}: {type(e).__name__}: {e}"
+                if not ok:
+                    out.append(violation(
+                        WHERE, "stale-after-reopen",
+                        {"kind": "reopen", "cs": cs, "keep": keep},
+                        detail, {"generation": min(gi, 1)}))
+                    break
+            f.close()
+    return cnt, out
+
+
 def run(ctx):
     depth = 5 if ctx.quick else 9
     dev = 1
@@ -319,6 +381,11 @@ def run(ctx):
                 ds_items.append((n, cs_kind, keep, ctx.seed, ctx.scratch))
     ds_res = par.pmap(_ds_case, ds_items)
     for info, vs in ds_res:
+        viols.extend(vs)
+    ro = par.pmap(_reopen_case, [(cs, keep) for cs in (4, 7, 16)
+                                 for keep in (1, 2, 3)])
+    cov["reopen_reads"] = sum(n for n, _ in ro)
+    for _, vs in ro:
         viols.extend(vs)
     cov["dataset_cases"] = len(ds_items)
     cov["dataset_requests"] = sum(i["requests"] for i, _ in ds_res)
@@ -345,6 +412,8 @@ def replay(case, ctx):
         _, vs = _ds_case((case["n"], case["cs_kind"], case["keep"],
                           case["seed"], ctx.scratch))
         return vs
+    if case.get("kind") == "reopen":
+        return _reopen_case((case["cs"], case["keep"]))[1]
     c = case["config"]
     drv = HTTPDriver(c["length"], c["chunk_size"], c["keep_chunks"],
                      c["flavour"])
